@@ -139,7 +139,7 @@ fn gen_long(rng: &mut Rng, classes: &[&'static str], caps: &[Option<usize>], per
     let nc = 1 + rng.below(maxthreads) as usize;
     let ending = *rng.pick(&[Ending::Natural, Ending::Natural, Ending::CloseMid, Ending::ReceiversLeave]);
     let mut threads = Vec::new();
-    let tus: [u32; 5] = [0, 5, 50, 300, 2000];
+    let tus: [u32; 6] = [0, 5, 50, 300, 2000, kverif::scn::LONG_US];
     for _ in 0..np {
         let mut ops = Vec::new();
         // each producer has its own mix (some are single-API, which is what the FIFO oracle likes)
